@@ -109,6 +109,7 @@ func cmdCheck(args []string) int {
 		solverArgv = []string{"z3", "-in", "-t:20000"}
 		if tier == 1 {
 			solverArgv = []string{"z3", "-in", "-t:60000"}
+			hardTimeout = 90 * time.Second
 		}
 	case "z3-new":
 		solverArgv = []string{"z3-new", "-in", "-t:20000"}
